@@ -504,3 +504,26 @@ def fully_heralded_program(draw, max_n=3, lossy=True, max_photons=1):
     for i in order:
         ops.insert(draw(st.integers(0, len(ops))), ["herald", draw(st.integers(0, max_photons)), i, outs[i]])
     return {"n": n, "ops": ops}
+
+
+@st.composite
+def nested_group_tree(draw, lossy=False):
+    """inner circuit added GROUPED at a non-zero mode of a herald-free middle circuit, which is then added
+    UNGROUPED (groups kept and shifted) at a non-zero mode of an outer circuit that may own ancillas."""
+    ki = draw(st.integers(1, 2))
+    inner = {"n": ki, "ops": draw(st.lists(primitive(ki, lossy), min_size=1, max_size=3))}
+    km = draw(st.integers(ki + 1, 4))
+    mops = draw(st.lists(primitive(km, lossy), max_size=2))
+    mops.append(["add", inner, draw(st.integers(1, km - ki)), True, draw(st.sampled_from([None, "inner"]))])
+    mops += draw(st.lists(primitive(km, lossy), max_size=2))
+    mid = {"n": km, "ops": mops}
+    n = draw(st.integers(km + 1, 6))
+    ops = []
+    if draw(st.booleans()):
+        child = draw(heralded_child(max_k=3, depth=0, lossy=lossy))
+        vis = child["n"] - count_heralds(child)
+        ops.append(["add", child, draw(st.integers(0, n - vis)), True, None])
+    ops += draw(st.lists(primitive(n, lossy), max_size=2))
+    ops.append(["add", mid, draw(st.integers(1, n - km)), draw(st.sampled_from([False, False, True])), None])
+    ops += draw(st.lists(primitive(n, lossy), max_size=2))
+    return {"n": n, "ops": ops}
